@@ -139,6 +139,48 @@ pub fn c03(tier: Tier) -> i32 {
             tot.merge(t);
         }
     }
+    // buffers of realistic size: inputs beyond the default 64 KiB buffer, read with the default capacity
+    // and its neighbours, with and without growth; canonical configuration = everything fits (1 MiB)
+    let big = big_inputs();
+    let t = par_sweep(big.len() as u64, 1, |idx, l| {
+        let (format, name, data) = &big[idx as usize];
+        let data = Rc::new(data.clone());
+        let canon_env = Env::plain(*format, 1 << 20);
+        let canon: Vec<FlatRun> = drivers.iter().map(|d| run_flat(&data, &canon_env, *d)).collect();
+        for cap in [4096usize, 65535, 65536, 65537, 100_000, 1 << 17] {
+            for policy in [PolKind::Std, PolKind::DoubleUntil(1 << 16), PolKind::Limited(1 << 16, 1 << 22)] {
+                for chunk in [Chunk::All, Chunk::Fixed(4096), Chunk::Fixed(65536)] {
+                    let env = Env { format: *format, cap, chunk, int: IntPat::None, policy, fault: None };
+                    for (di, d) in drivers.iter().enumerate() {
+                        let run = run_flat(&data, &env, *d);
+                        l.evals += 1;
+                        l.nontrivial += 1;
+                        l.count("transitions", run.api_calls);
+                        l.count("runs_on_inputs_beyond_64KiB", 1);
+                        let c = &canon[di];
+                        if run.items != c.items || (di != 1 && run.marks != c.marks) {
+                            let first = run.items.iter().zip(c.items.iter()).position(|(a, b)| a != b);
+                            l.violation(Violation {
+                                property: "C03".into(),
+                                sig: format!("{}|{:?}|big-input", format.name(), d),
+                                detail: format!(
+                                    "input '{}' ({} bytes): {:?} differs from the 1 MiB configuration: {} items vs {}, first differing item {:?}: {} vs {}",
+                                    name, data.len(), env, run.items.len(), c.items.len(), first,
+                                    first.map_or(String::new(), |i| run.items[i].show().chars().take(200).collect()),
+                                    first.map_or(String::new(), |i| c.items[i].show().chars().take(200).collect())
+                                ),
+                                weight: (data.len() + cap) as u64,
+                                replay: json!({"kind": "views", "input_name": name, "input_len": data.len(), "env": env, "driver": format!("{:?}", d), "note": "input generated by big_inputs() in c_configs.rs"}),
+                            });
+                        }
+                    }
+                }
+            }
+        }
+    });
+    println!("  inputs beyond 64 KiB: {} inputs, {} runs, {:.1}s", big.len(), t.evals, t.wall_s);
+    names.push(format!("{} generated inputs of 70-200 KB (many medium records; one 150 KB record forcing growth; record starts at bytes 65535/65536/65537) under capacities 4096, 65535, 65536, 65537, 100000, 128 KiB x Std/DoubleUntil(64K)/DoubleUntilLimited(64K, 4M) x reads of any/4096/65536 bytes against the 1 MiB configuration", big.len()));
+    tot.merge(t);
     finish(
         Report {
             property: "C03".into(),
@@ -153,6 +195,86 @@ pub fn c03(tier: Tier) -> i32 {
         },
         tot,
     )
+}
+
+/// inputs larger than the default buffer
+fn big_inputs() -> Vec<(Format, String, Vec<u8>)> {
+    let mut out = vec![];
+    let seq = |n: usize, off: usize| -> Vec<u8> { (0..n).map(|i| b"ACGT"[(i + off) % 4]).collect() };
+    for format in [Format::Fasta, Format::Fastq] {
+        let rec = |id: usize, n: usize, crlf: bool| -> Vec<u8> {
+            let nl: &[u8] = if crlf { b"\r\n" } else { b"\n" };
+            let mut r = vec![];
+            match format {
+                Format::Fasta => {
+                    r.extend_from_slice(format!(">r{} d{}", id, n).as_bytes());
+                    r.extend_from_slice(nl);
+                    // lines of 70
+                    let s = seq(n, id);
+                    for ch in s.chunks(70) {
+                        r.extend_from_slice(ch);
+                        r.extend_from_slice(nl);
+                    }
+                }
+                Format::Fastq => {
+                    r.extend_from_slice(format!("@r{} d{}", id, n).as_bytes());
+                    r.extend_from_slice(nl);
+                    r.extend_from_slice(&seq(n, id));
+                    r.extend_from_slice(nl);
+                    r.extend_from_slice(b"+");
+                    r.extend_from_slice(nl);
+                    r.extend(std::iter::repeat(b'I').take(n));
+                    r.extend_from_slice(nl);
+                }
+            }
+            r
+        };
+        // many medium records
+        for crlf in [false, true] {
+            let mut d = vec![];
+            for i in 0..600 {
+                d.extend_from_slice(&rec(i, 100 + (i * 37) % 250, crlf));
+            }
+            out.push((format, format!("600 records of 100-350 bases, crlf {}", crlf), d));
+        }
+        // one long record forcing growth, between short ones
+        let mut d = rec(0, 50, false);
+        d.extend_from_slice(&rec(1, 150_000, false));
+        d.extend_from_slice(&rec(2, 60, false));
+        d.extend_from_slice(&rec(3, 70_000, false));
+        d.extend_from_slice(&rec(4, 10, false));
+        out.push((format, "records of 50, 150000, 60, 70000, 10 bases".to_string(), d));
+        // the second record starts at byte 65535 / 65536 / 65537
+        for target in [65535usize, 65536, 65537] {
+            let probe = rec(0, 1000, false).len() - 1000;
+            let per_base = if format == Format::Fastq { 2 } else { 1 };
+            // FASTA lines of 70 add a terminator every 70 bases: search the length that hits the target
+            let mut n = (target - probe) / per_base;
+            let mut first = rec(0, n, false);
+            while first.len() > target && n > 0 {
+                n -= 1;
+                first = rec(0, n, false);
+            }
+            while first.len() < target {
+                n += 1;
+                first = rec(0, n, false);
+            }
+            if first.len() != target {
+                // not exactly reachable with this shape (line wrapping): pad the header
+                n -= 1;
+                first = rec(0, n, false);
+                let pad = target - first.len();
+                let pos = first.iter().position(|&b| b == b'\n').unwrap();
+                let padding: Vec<u8> = std::iter::repeat(b'p').take(pad).collect();
+                first.splice(pos..pos, padding);
+            }
+            let mut d = first;
+            d.extend_from_slice(&rec(1, 200, false));
+            d.extend_from_slice(&rec(2, 3000, false));
+            out.push((format, format!("second record starts at byte {}", target), d));
+        }
+    }
+    out
 }
 
 // ---------------------------------------------------------------------------------------------
